@@ -19,7 +19,7 @@ TECHNIQUE = (
 )
 LEVEL_TEXT = (
     "Generated peer histories (T_ACK/T_NAK with any number, duplicates in the same instant, responses early/late/duplicated/out of order/wrong "
-    "type, T_Disconnect at any point, frames of a stranger, silence; delays on and around the 3 s / 6 s timeouts; the application cancelling the task that runs request() while it waits for the L_Data.con, the T_ACK, the response or during the repetition, with further requests on the same open connection) plus a fixed list of corner "
+    "type, T_Disconnect at any point, frames of a stranger, silence; delays on and around the 3 s / 6 s timeouts; the application cancelling the task that runs request() while it waits for the L_Data.con, the T_ACK, the response or during the repetition, with further requests on the same open connection; slow confirmations of our own T_Connect / T_Disconnect with peer data frames crossing in that window) plus a fixed list of corner "
     "histories are replayed against the real connection. The space of histories is unbounded, so this is exploration."
 )
 LEVEL_NOTE = (
@@ -104,6 +104,15 @@ def gen_history(rng, long_run=False):
     for _ in range(nreq + 1):  # idle[0] fires right after connect
         hist["idle"].append([_rand_item(rng) for _ in range(rng.choice((0, 0, 0, 1, 2)))] if not long_run else [])
         hist["gaps"].append(rng.choice((0.0, 0.0, 0.1, 1.0, 7.0)) if not long_run else 0.0)
+    if rng.random() < 0.12 and not long_run:
+        # slow L_Data.con for our own T_Connect / T_Disconnect with peer frames crossing in that window
+        win = lambda: [(rng.choice((0.0, 0.001, 0.1, 0.3)), "resp", ("ok", rng.choice((0, 0, -1, 5))), rng.choice((1, 1, 2)))  # noqa: E731
+                       for _ in range(rng.randint(1, 3))] + ([(0.35, "rep", None, 1)] if rng.random() < 0.5 else [])
+        hist["edges"] = {}
+        if rng.random() < 0.4:
+            hist["edges"]["connect"] = {"con_delay": rng.choice(("soon", 0.01, 0.5)), "items": win()}
+        if rng.random() < 0.8 or not hist["edges"]:
+            hist["edges"]["disconnect"] = {"con_delay": rng.choice(("soon", 0.01, 0.5)), "items": win()}
     if nreq >= 2 and rng.random() < 0.2 and not long_run:
         # the application cancels the task running request() number `req`, `delay` after its first / second transmission;
         # the connection stays open and the later requests go on
@@ -121,9 +130,10 @@ def corner_histories():
     A, R = (0.01, "ack", 0, 1), (0.02, "resp", ("ok", 0), 1)
     out = []
 
-    def h(name, reactions, idle=None, nreq=1, gaps=None, cancel=None):
+    def h(name, reactions, idle=None, nreq=1, gaps=None, cancel=None, edges=None):
         out.append({"name": name, "requests": ["dd", "mem", "dd", "mem"][:nreq], "reactions": reactions,
-                    "idle": idle or [[] for _ in range(nreq + 1)], "gaps": gaps or [0.0] * (nreq + 1), "con": None, "cancel": cancel})
+                    "idle": idle or [[] for _ in range(nreq + 1)], "gaps": gaps or [0.0] * (nreq + 1), "con": None, "cancel": cancel,
+                    "edges": edges})
 
     h("clean", [[A, R]])
     h("clean-3", [[A, R]] * 3, nreq=3)
@@ -159,6 +169,12 @@ def corner_histories():
     h("stranger-ack-connect-disconnect", [[A, (0.012, "sack", 0, 1), (0.013, "sconn", None, 1), (0.014, "sdisc", None, 1), R]])
     h("data-after-peer-disconnect", [[A, R], []], idle=[[], [(0.0, "disc", None, 1), (0.01, "resp", ("ok", 0), 1)], []], nreq=2, gaps=[0, 0.1, 0])
     h("silence", [[A], [A]], nreq=2)
+    # our own T_Disconnect / T_Connect is confirmed slowly and peer data crosses it
+    W = [(0.1, "resp", ("ok", 0), 1), (0.2, "rep", None, 1), (0.3, "resp", ("ok", 5), 1)]
+    for d in ("soon", 0.01, 0.5):
+        h(f"data-while-our-disconnect-awaits-confirmation-{d}", [[A, R]], edges={"disconnect": {"con_delay": d, "items": [(0.0, "resp", ("ok", 0), 1), (0.0, "rep", None, 1)] if d != 0.5 else W}})
+        h(f"data-while-our-connect-awaits-confirmation-{d}", [[A, R], [A, R]], nreq=2, edges={"connect": {"con_delay": d, "items": [(0.0, "resp", ("ok", 0), 1)] if d != 0.5 else W}})
+    h("data-in-both-windows", [[A, R]], edges={"connect": {"con_delay": 0.5, "items": W}, "disconnect": {"con_delay": 0.5, "items": W}})
     # the task running request() is cancelled at each await stage; two more requests follow on the same open connection
     for req in (0, 1):
         pre = [[A, R]] * req
@@ -277,11 +293,16 @@ def run_history(ctx, hist, judge=True):
             if j < len(hist["reactions"]):
                 lag = float(rec["con"]) if isinstance(rec.get("con"), float) else 0.0  # the peer sees the frame when it is confirmed
                 schedule([(d + lag if lag else d, a, b, c) for (d, a, b, c) in hist["reactions"][j]], st.get("want", "dd"))
+        elif rec["dst"] == PEER and rec["tpci"] in ("TConnect", "TDisconnect") and rec.get("con") != "raise":
+            edge = edges.get("connect" if rec["tpci"] == "TConnect" else "disconnect")
+            if edge:
+                schedule([tuple(i) for i in edge["items"]], "dd")
         elif rec["dst"] == PEER and rec["tpci"] == "TAck":
             if rec["seq"] == st["next"]:
                 st["next"] = (st["next"] + 1) & 0xF  # a real peer advances once its frame is acknowledged
 
     cancel = hist.get("cancel")
+    edges = hist.get("edges") or {}
 
     def fire_cancel(i):
         task = st.get("task")
@@ -299,16 +320,21 @@ def run_history(ctx, hist, judge=True):
 
     link.on_tx = on_tx
     con = hist.get("con")
-    if con:
-        link.con_mode = lambda rec: con["mode"] if rec["n"] == con["n"] else "ok"
-    elif cancel and cancel.get("con_delay"):
-        def con_mode(rec):
-            if rec["dst"] == PEER and rec["tpci"] == "TDataConnected" and st.get("req_index") == cancel["req"]:
-                st["con_pending"] = True
-                loop.call_later(cancel["con_delay"], st.__setitem__, "con_pending", False)
-                return float(cancel["con_delay"])
-            return "ok"
-        link.con_mode = con_mode
+
+    def con_mode(rec):
+        if con:
+            return con["mode"] if rec["n"] == con["n"] else "ok"
+        if rec["dst"] == PEER and rec["tpci"] in ("TConnect", "TDisconnect"):
+            edge = edges.get("connect" if rec["tpci"] == "TConnect" else "disconnect")
+            if edge:
+                return edge["con_delay"] if edge["con_delay"] == "soon" else float(edge["con_delay"])
+        if cancel and cancel.get("con_delay") and rec["dst"] == PEER and rec["tpci"] == "TDataConnected" and st.get("req_index") == cancel["req"]:
+            st["con_pending"] = True
+            loop.call_later(cancel["con_delay"], st.__setitem__, "con_pending", False)
+            return float(cancel["con_delay"])
+        return "ok"
+
+    link.con_mode = con_mode
 
     async def main():
         try:
@@ -366,6 +392,7 @@ def run_history(ctx, hist, judge=True):
             pass
         except BaseException as exc:  # noqa: BLE001
             link.log.append(("disconnect_raised", now(), type(exc).__name__))
+        link.log.append(("disconnect_done", now()))
         await asyncio.sleep(10)
 
     obs = {"hist": hist, "harness": None}
@@ -438,6 +465,8 @@ def _judge(ctx, obs):
     slot_full = {False}
     receive_started = None
     cancel_edge = False
+    connecting = False
+    closing = False
     accepted = {}  # uid -> True (certain) | "maybe"
     unacked = []  # received data frames not yet matched with a T_ACK: dict(src, n, admissible, reason)
     data_numbers = []  # (request_index, seq, payload repr) of outgoing data to the peer
@@ -446,8 +475,14 @@ def _judge(ctx, obs):
         if kind == "connected":
             is_open = True
             connected_once = True
+            connecting = False
+        elif kind == "connect_failed":
+            connecting = False
         elif kind == "disconnect_start":
             is_open = False
+            closing = True
+        elif kind == "disconnect_done":
+            closing = False
         elif kind == "receive_start":
             receive_started = e[1]
         elif kind == "receive_done":
@@ -470,6 +505,17 @@ def _judge(ctx, obs):
                 n = r["seq"]
                 if r["src"] != PEER:
                     unacked.append({"src": r["src"], "n": n, "ok": False, "why": "without-open-connection", "time": r["time"]})
+                    continue
+                if connecting:
+                    # our T_Connect is handed over but not confirmed: the expected / preceding number may be acknowledged already
+                    ctx.count("data_frames_while_our_connect_awaits_confirmation")
+                    unacked.append({"src": r["src"], "n": n, "ok": n in (0, 15), "why": "without-open-connection", "time": r["time"]})
+                    continue
+                if closing:
+                    # our T_Disconnect is handed over: the connection is closed from our side whatever the confirmation does
+                    ctx.count("data_frames_while_our_disconnect_awaits_confirmation")
+                    unacked.append({"src": r["src"], "n": n, "ok": False, "why": "after-our-own-T_Disconnect-awaiting-its-confirmation",
+                                    "time": r["time"], "expected": sorted(eset)})
                     continue
                 if not is_open:
                     unacked.append({"src": r["src"], "n": n, "ok": False, "why": "without-open-connection", "time": r["time"]})
@@ -497,6 +543,8 @@ def _judge(ctx, obs):
                         ctx.count("in_sequence_frame_found_slot_full")
         elif kind == "tx":
             r = e[1]
+            if r["tpci"] == "TConnect" and r["dst"] == PEER:
+                connecting = True
             if r["tpci"] == "TAck":
                 ctx.count("tack_sent")
                 # the T_ACK leaves in the instant its data frame arrived; when the link delays it, give the benefit of the doubt
@@ -613,7 +661,8 @@ def run(ctx):
                 "repetitions_seen", "outgoing_number_wrapped", "rx_disc", "rx_data", "rx_ack", "rx_nak", "rx_sdata",
                 "peer_disconnects_on_open_connection", "requests_cancelled_by_the_application", "requests_after_a_cancellation_returned",
                 "cancelled_while_waiting-for-confirmation", "cancelled_while_waiting-for-ack", "cancelled_while_waiting-for-response",
-                "cancelled_while_repetition-waiting-for-ack")
+                "cancelled_while_repetition-waiting-for-ack", "data_frames_while_our_connect_awaits_confirmation",
+                "data_frames_while_our_disconnect_awaits_confirmation")
     n = 0
     for hist in corner_histories():
         n += 1
